@@ -192,4 +192,18 @@ def handleCDeref : List String → String
     f x.1 ++ f x.2.1 ++ f x.2.2
   | _ => "bad-op"
 
+/-- `value <assumedtype,given(0 none 1 false 2 true),isIndirect,isVoid,nptr,isArray,isConst,intent>` ->
+    `attrs["value"]` after check_arg_attrs: `-` none, `0`, `1`, `raise` -/
+def handleValue : List String → String
+  | [hd] =>
+    let h := decNats hd
+    let g : Option Bool := match h.getD 1 0 with | 1 => some false | 2 => some true | _ => none
+    let d : ValueD := ⟨b (h.getD 0 0), g, b (h.getD 2 0), b (h.getD 3 0), h.getD 4 0, b (h.getD 5 0), b (h.getD 6 0), h.getD 7 0⟩
+    match valueAttr d with
+    | .ok none => "-"
+    | .ok (some true) => "1"
+    | .ok (some false) => "0"
+    | .oob => "raise"
+  | _ => "bad-op"
+
 end Driver
